@@ -342,10 +342,87 @@ def rewrite_body(body, mode, stats):
     # R11: cw_storage_plus Item / Map constants
     body = apply_counted(r'\b([A-Z][A-Z_]+)\.may_load\(', r'item_may_load__\1(', body, stats, 'R11_storage_prim')
     body = apply_counted(r'\b([A-Z][A-Z_]+)\.save\(', r'item_save__\1(', body, stats, 'R11_storage_prim')
+    # R17: `match <e>.as_str() { "lit" => a, .., _ => d }` -> `if str_is(<e>.as_str(), "lit") { a } else .. else { d }`
+    # (this Verus knows of a string-literal pattern only "arm taken => text equal"; the if-chain over a string-equality test with the
+    # exact spec `r == (a@ == b@)` gives both directions; same arms, same order, same bodies)
+    body = rewrite_str_match(body, stats)
     # R9: unwrap -> unwrap_or_abort (partial mode)
     if mode == 'partial':
         body = apply_counted(r'\.unwrap\(\)', '.unwrap_or_abort()', body, stats, 'R9_unwrap')
     return body
+
+
+def rewrite_str_match(body, stats):
+    out = body
+    guard = 0
+    while guard < 20:
+        guard += 1
+        ms = list(code_positions(out, r'\bmatch\s+([A-Za-z_][\w.]*)\.as_str\(\)\s*\{'))
+        if not ms:
+            break
+        done = False
+        for m in ms:
+            ob = m.end() - 1
+            cb = match_close(out, ob)
+            inner = out[ob + 1:cb]
+            arms, k, ok = [], 0, True
+            while True:
+                while k < len(inner) and inner[k].isspace():
+                    k += 1
+                if k >= len(inner):
+                    break
+                # comments between arms
+                nc = skip_noncode(inner, k)
+                if nc is not None and inner[k] == '/':
+                    k = nc
+                    continue
+                pm = re.match(r'((?:"(?:[^"\\]|\\.)*"\s*\|\s*)*"(?:[^"\\]|\\.)*"|_)\s*=>\s*', inner[k:])
+                if not pm:
+                    ok = False
+                    break
+                pats = re.findall(r'"(?:[^"\\]|\\.)*"', pm.group(1)) if pm.group(1) != '_' else None
+                k += pm.end()
+                if k < len(inner) and inner[k] == '{':
+                    e = match_close(inner, k)
+                    arm_body = inner[k:e + 1]
+                    k = e + 1
+                    while k < len(inner) and inner[k].isspace():
+                        k += 1
+                    if k < len(inner) and inner[k] == ',':
+                        k += 1
+                else:
+                    depth, e = 0, k
+                    while e < len(inner):
+                        nc = skip_noncode(inner, e)
+                        if nc is not None:
+                            e = nc
+                            continue
+                        ch = inner[e]
+                        if ch in '([{':
+                            depth += 1
+                        elif ch in ')]}':
+                            depth -= 1
+                        elif ch == ',' and depth == 0:
+                            break
+                        e += 1
+                    arm_body = '{ ' + inner[k:e].strip() + ' }'
+                    k = e + 1
+                arms.append((pats, arm_body))
+            if not ok or not arms or arms[-1][0] is not None or any(a[0] is None for a in arms[:-1]):
+                continue
+            subj = m.group(1) + '.as_str()'
+            parts = []
+            for pats, arm_body in arms[:-1]:
+                cond = ' || '.join('str_is(%s, %s)' % (subj, p_) for p_ in pats)
+                parts.append('if %s %s' % (cond, arm_body))
+            chain = ' else '.join(parts) + ' else ' + arms[-1][1]
+            out = out[:m.start()] + chain + out[cb + 1:]
+            stats['R17_str_match'] = stats.get('R17_str_match', 0) + 1
+            done = True
+            break
+        if not done:
+            break
+    return out
 
 
 def find_loops(body):
